@@ -405,6 +405,41 @@ def rule_segtype_subject(res, rid, m):
     return n
 
 
+def rule_classifier_reads_type_only(res, rid, m):
+    """Whether a message is unsegmented, a first segment or a continuation is a property of its segment-type bits alone.  The predicates
+    the message walk branches on to tell these apart (in-repo bool functions over the cursor pair that test a segment type) compare
+    nothing but the segment type: a classifier that also looks at the remaining frame size, the payload length or a flag treats some
+    segments as ordinary messages (their fragment is delivered as a packet and the open reassembly dropped) or the reverse."""
+    fb = m.fb
+    f = m.decode
+    n = 0
+    seen = set()
+    for c in f.calls():
+        g = fb.resolve_call(c)
+        if g is None or g.body is None or g.key in seen or (g.raw.get("rett") or {}).get("k") != "bool" or not g.raw.get("inrepo"):
+            continue
+        if g.rec not in (DEC, None) and "(anon-ns)" not in g.name:
+            continue
+        tests = [x for x in g.nodes() if x.get("k") == "call" and callee_name(x) == MH + "::getSegmentType"]
+        if not tests:
+            continue
+        seen.add(g.key)
+        n += 1
+        other = []
+        for x in g.nodes():
+            if x.get("k") == "bin" and x.get("op") in ("==", "!=", "<", "<=", ">", ">="):
+                sides = [facts.expand(g, x["l"]), facts.expand(g, x["r"])]
+                if not any(MH + "::getSegmentType" in facts.called_names(s) for s in sides):
+                    other.append(x)
+            elif x.get("k") == "call" and (x.get("callee") or {}).get("inrepo") and (x.get("t") or {}).get("k") == "bool" and callee_name(x) != MH + "::getSegmentType":
+                other.append(x)
+        res.check(not other, rid, "classifier:%s:type-only" % g.name.split("::")[-1], (other[0] if other else g.raw).get("loc") or g.loc,
+                  "%s decides by the segment type alone" % g.name.split("::")[-1],
+                  "%s, which the message walk uses to tell segments from unsegmented messages, also decides by `%s`: messages whose segment bits say one "
+                  "thing are handled as another" % (g.name, canon(other[0])[:80] if other else ""))
+    return n
+
+
 def seg_labels(fb, p):
     """Which segment types are still possible on path p, from the branch outcomes that test the
     message's segment type (directly, through a local, or through a predicate helper).
